@@ -157,8 +157,119 @@ def _task(axes_kind, mode):
     )
 
 
+# ----------------------------------------------------------------------------
+# orchestration of the fused strategy
+
+
+def _via_fused_task():
+    """_tensordot_via_fused: align, (early exit with the right indices / charge when nothing aligns),
+    fuse both operands into matrices/vectors, blockwise-contract the fused pair with the axes that
+    the fuse layout implies, unfuse exactly the legs fused here (never a leg that was fused before)."""
+    QF = "abelian_core._tensordot_via_fused"
+
+    def body(it):
+        import itertools
+
+        AA = it.get_class("abelian_core", "AbelianArray")
+        for nl, ncn, nr in itertools.product((0, 1, 2), repeat=3):
+            for a_empty, b_empty in ((False, False), (True, False), (False, True)):
+                tag = f"_tensordot_via_fused[nleft={nl},ncon={ncn},nright={nr},{'a_empty' if a_empty else 'b_empty' if b_empty else 'aligned'}]"
+                ax = lambda nm, n: tuple(SV(z3.Int(f"{nm}{i}"), TInt) for i in range(n))
+                left, ca, cb, right = ax("l", nl), ax("ca", ncn), ax("cb", ncn), ax("r", nr)
+                a = SymObj(AA, {"_tag": "a"}, tag="a")
+                b = SymObj(AA, {"_tag": "b"}, tag="b")
+                log = []
+                ia, ib = SymObj(None, {}, tag="a_indices"), SymObj(None, {}, tag="b_indices")
+                cha, chb = SymObj(None, {}, tag="a_charge"), SymObj(None, {}, tag="b_charge")
+                comb = SymObj(None, {}, tag="combined_charge")
+                symm = SymObj(None, {}, tag="symmetry")
+                symm.fields["combine"] = BuiltinVal("combine", lambda i2, a2, k2: comb if (len(a2) == 2 and a2[0] is cha and a2[1] is chb) else SymObj(None, {}, tag="wrong_combine"))
+                a2 = SymObj(AA, {"_blocks": {} if a_empty else {"k": 1}, "_indices": ia, "_charge": cha, "_symmetry": symm}, tag="a_aligned")
+                b2 = SymObj(AA, {"_blocks": {} if b_empty else {"k": 1}, "_indices": ib, "_charge": chb, "_symmetry": symm}, tag="b_aligned")
+
+                def dms(it_, args, kw):
+                    log.append(("align", args, kw))
+                    return (a2, b2)
+
+                def without(it_, args, kw):
+                    return ("without", args[0], args[1])
+
+                def fuse(it_, args, kw):
+                    log.append(("fuse", args, kw))
+                    return SymObj(AA, {"_fused_from": args[0]}, tag="fused")
+
+                cf = SymObj(AA, {"ndim": (1 if nl else 0) + (1 if nr else 0)}, tag="cf")
+
+                def blockwise(it_, args, kw):
+                    log.append(("blockwise", args, kw))
+                    return cf
+
+                def unfuse(it_, args, kw):
+                    log.append(("unfuse", args, kw))
+                    return args[0]
+
+                def copy_with(it_, args, kw):
+                    log.append(("copy_with", args, kw))
+                    return SymObj(AA, {"_early": True}, tag="early")
+
+                it.summaries["abelian_core.drop_misaligned_sectors"] = dms
+                it.summaries["abelian_core.without"] = without
+                it.summaries["abelian_core.AbelianArray.fuse"] = fuse
+                it.summaries["abelian_core._tensordot_blockwise"] = blockwise
+                it.summaries["abelian_core.AbelianArray.unfuse"] = unfuse
+                it.summaries["abelian_core.AbelianArray.copy_with"] = copy_with
+                fn = it.module_lookup("abelian_core", "_tensordot_via_fused")
+                r = it.call(fn, [a, b, left, ca, cb, right])
+                ob = it.ctx.oblige
+                al = [e for e in log if e[0] == "align"]
+                ob(tag + ".aligns_operands_first_out_of_place", len(al) == 1 and al[0][1][0] is a and al[0][1][1] is b and al[0][1][2] is ca and al[0][1][3] is cb and not al[0][2].get("inplace", False) and log[0][0] == "align")
+                if a_empty or b_empty:
+                    cw = [e for e in log if e[0] == "copy_with"]
+                    ok = len(cw) == 1 and len(log) == 2
+                    ob(tag + ".early_exit_builds_empty_result_only", ok and r.fields.get("_early") is True)
+                    if ok:
+                        kw = cw[0][2]
+                        ob(tag + ".early_exit_no_blocks", kw.get("blocks") == {})
+                        ob(tag + ".early_exit_charge_is_combination", kw.get("charge") is comb)
+                        ob(tag + ".early_exit_indices_are_free_legs", kw.get("indices") == (("without", ia, ca) + ("without", ib, cb)) or kw.get("indices") == ("without", ia, ca, "without", ib, cb))
+                    continue
+                fz = [e for e in log if e[0] == "fuse"]
+                ok = len(fz) == 2
+                ob(tag + ".fuses_both_operands", ok)
+                if not ok:
+                    continue
+                ob(tag + ".left_operand_fused_as_free_then_contracted", fz[0][1][0] is a2 and fz[0][1][1] is left and fz[0][1][2] is ca and fz[0][2].get("expand_empty") is False)
+                ob(tag + ".right_operand_fused_as_contracted_then_free", fz[1][1][0] is b2 and fz[1][1][1] is cb and fz[1][1][2] is right and fz[1][2].get("expand_empty") is False)
+                bw = [e for e in log if e[0] == "blockwise"]
+                ok = len(bw) == 1
+                ob(tag + ".one_blockwise_contraction_of_the_fused_pair", ok)
+                if ok:
+                    args = bw[0][1]
+                    want = (
+                        (0,) if nl else (),
+                        ((1,) if nl else (0,)) if ncn else (),
+                        (0,) if ncn else (),
+                        ((1,) if ncn else (0,)) if nr else (),
+                    )
+                    ob(tag + ".fused_axes_follow_the_fuse_layout", len(args) == 6 and args[0].fields.get("_fused_from") is a2 and args[1].fields.get("_fused_from") is b2 and tuple(args[2:]) == want)
+                uf = [e for e in log if e[0] == "unfuse"]
+                want_uf = ([cf.fields["ndim"] - 1] if nr > 1 else []) + ([0] if nl > 1 else [])
+                got_uf = [e[1][1] for e in uf]
+                ob(tag + ".unfuses_exactly_the_legs_fused_here_right_first", got_uf == want_uf and all(e[1][0] is cf and e[2].get("inplace") is True for e in uf))
+                ob(tag + ".returns_contracted_array", r is cf)
+
+    return Task(
+        "C06.tensordot_via_fused.orchestration",
+        ["C06", "C02"],
+        [QF],
+        body,
+        assumes=["callee contracts: drop_misaligned_sectors, AbelianArray.fuse / unfuse (layout: groups inserted at the lowest fused axis in the order given), _tensordot_blockwise: bounded tier C02/C05/C06", "enumerated over 0, 1, 2 free / contracted axes per side (the code only distinguishes 0, 1, >1)"],
+        bounded_rank="numbers of free / contracted axes in {0, 1, 2} (the function branches only on 0 vs >0 and >1)",
+    )
+
+
 def tasks():
-    out = []
+    out = [_via_fused_task()]
     for ak in ("int", "pairs"):
         for mode in ("auto", "fused", "blockwise", None, "bogus"):
             out.append(_task(ak, mode))
